@@ -409,3 +409,9 @@ func zzOutDir() string {
 	}
 	return d
 }
+
+// replay entries of this file (registered here so that the file can be left out
+// on its own when it does not compile against the tree under check)
+func init() {
+	zzEntries["ZZ_CONN"] = ZZ_CONN
+}
